@@ -26,6 +26,7 @@ import (
 	"github.com/notaryproject/notation-go/xverif/common"
 	"github.com/opencontainers/go-digest"
 	ocispec "github.com/opencontainers/image-spec/specs-go/v1"
+	orasRegistry "oras.land/oras-go/v2/registry"
 )
 
 // ---- abstract case (JSON shape of Lean's Input / Obs) ---------------------------------
@@ -48,6 +49,16 @@ type Input struct {
 	Queries []string `json:"queries"`
 	History string   `json:"history"` // how the object got there, see hist
 	Before  *[]Stmt  `json:"before"`  // content it was built (and validated) with, when edited afterwards
+	// a document of the OTHER kind the verifier is configured with as well (VerifierOptions with both)
+	Companion *[]Stmt `json:"companion"`
+	// oci: well-formed digest references sent through the registry entry point notation.Verify
+	RegistryQueries []string `json:"registryQueries"`
+}
+
+// RObs: one reference through notation.Verify with the real verifier behind a recording wrapper
+type RObs struct {
+	RegSkip   string `json:"regSkip"`
+	RegVerify string `json:"regVerify"`
 }
 
 // hist is the history of the document object the selections are made on: built with the
@@ -214,6 +225,7 @@ type Obs struct {
 	VerifierAccepts bool   `json:"verifierAccepts"`
 	Queries         []QObs `json:"queries"`
 	GlobalSel       *QObs  `json:"globalSel"`
+	Registry        []RObs `json:"registry"`
 }
 
 const (
@@ -539,13 +551,23 @@ type skipVerifier interface {
 	SkipVerify(ctx context.Context, opts notation.VerifierVerifyOptions) (bool, *trustpolicy.VerificationLevel, error)
 }
 
-const noVerifier = other + ":no-verifier"
+const noVerifier = "no-verifier"
+const notReached = "not-reached"
 
 // newE2E hands the document object to the verifier constructor (which validates it and keeps
 // the pointer). stmts is the content the selections will be judged against.
-func newE2E(stmts []Stmt, d *docObj) *e2e {
+func newE2E(stmts []Stmt, d *docObj, companion *docObj) *e2e {
 	ts := &memStore{root: getWorld().chain.Root().Cert}
 	opts := verifier.VerifierOptions{OCITrustPolicy: d.o, BlobTrustPolicy: d.b}
+	if companion != nil {
+		// the verifier is configured with BOTH documents
+		if companion.o != nil {
+			opts.OCITrustPolicy = companion.o
+		}
+		if companion.b != nil {
+			opts.BlobTrustPolicy = companion.b
+		}
+	}
 	v, err := verifier.NewVerifierWithOptions(ts, opts)
 	if err != nil {
 		// observed, not assumed: the constructor refused the document
@@ -648,7 +670,18 @@ func runCase(in Input, real func(q int) bool) Obs {
 	// validation is observed, not assumed: Validate() and the verifier's constructor on fresh
 	// objects with the current content. Only when both refuse it is there nothing to select from.
 	verr := parseDoc(in.Kind, raw).validate()
-	obs := Obs{Validated: verr == nil, VerifierAccepts: newE2E(in.Stmts, parseDoc(in.Kind, raw)).built, Queries: []QObs{}}
+	otherKind := "blob"
+	if in.Kind == "blob" {
+		otherKind = "oci"
+	}
+	// a fresh object of the companion document for every verifier that is constructed
+	comp := func() *docObj {
+		if in.Companion == nil {
+			return nil
+		}
+		return parseDoc(otherKind, docJSON(otherKind, *in.Companion))
+	}
+	obs := Obs{Validated: verr == nil, VerifierAccepts: newE2E(in.Stmts, parseDoc(in.Kind, raw), comp()).built, Queries: []QObs{}, Registry: []RObs{}}
 	if !obs.Validated && !obs.VerifierAccepts {
 		return obs
 	}
@@ -687,9 +720,9 @@ func runCase(in Input, real func(q int) bool) Obs {
 			if h.edit != "" {
 				vd.edit(parseDoc(in.Kind, raw), h.edit)
 			}
-			e = newE2E(in.Stmts, vd)
+			e = newE2E(in.Stmts, vd, comp())
 		} else {
-			e = newE2E(in.Stmts, vd)
+			e = newE2E(in.Stmts, vd, comp())
 			if h.warm {
 				warmUp(func(kind, q string) {
 					if in.Kind == "oci" {
@@ -824,13 +857,76 @@ func runCase(in Input, real func(q int) bool) Obs {
 		}
 		obs.GlobalSel = &g
 	}
+	// the registry entry point: notation.Verify with the real verifier behind a recording wrapper
+	for _, q := range in.RegistryQueries {
+		obs.Registry = append(obs.Registry, e.registry(q))
+	}
 	return obs
+}
+
+// recorder wraps the real verifier: it hands every call on and records what came back
+type recorder struct {
+	e         *e2e
+	skip, ver string
+}
+
+func (r *recorder) Verify(ctx context.Context, desc ocispec.Descriptor, sig []byte, opts notation.VerifierVerifyOptions) (*notation.VerificationOutcome, error) {
+	r.e.ts.log = nil
+	out, err := r.e.v.Verify(ctx, desc, sig, opts)
+	r.ver = classify(r.e.stmts, out, err, r.e.ts, true)
+	return out, err
+}
+
+func (r *recorder) SkipVerify(ctx context.Context, opts notation.VerifierVerifyOptions) (bool, *trustpolicy.VerificationLevel, error) {
+	skip, lv, err := r.e.skipper.SkipVerify(ctx, opts)
+	var npe notation.ErrorNoApplicableTrustPolicy
+	switch {
+	case err != nil && errors.As(err, &npe):
+		r.skip = noPolicy
+	case err != nil:
+		r.skip = other + ":skipverify-error"
+	default:
+		if s, ok := whoHasLevel(r.e.stmts, lv); ok {
+			r.skip = "stmt:" + s.Name
+		} else {
+			r.skip = other + ":unknown-level"
+		}
+	}
+	return skip, lv, err
+}
+
+// hubRepo: a repository holding the artifact of the world with one genuine signature
+type hubRepo struct{}
+
+func (hubRepo) Resolve(ctx context.Context, reference string) (ocispec.Descriptor, error) {
+	return getWorld().target, nil
+}
+func (hubRepo) ListSignatures(ctx context.Context, desc ocispec.Descriptor, fn func([]ocispec.Descriptor) error) error {
+	return fn([]ocispec.Descriptor{{MediaType: ocispec.MediaTypeImageManifest, Digest: digest.FromString("c08 signature"), Size: 13}})
+}
+func (hubRepo) FetchSignatureBlob(ctx context.Context, desc ocispec.Descriptor) ([]byte, ocispec.Descriptor, error) {
+	return getWorld().realSig, ocispec.Descriptor{MediaType: common.MediaJWS}, nil
+}
+func (hubRepo) PushSignature(ctx context.Context, mediaType string, blob []byte, subject ocispec.Descriptor, annotations map[string]string) (a, b ocispec.Descriptor, err error) {
+	return
+}
+
+func (e *e2e) registry(ref string) RObs {
+	if !e.built || e.skipper == nil {
+		return RObs{RegSkip: noVerifier, RegVerify: noVerifier}
+	}
+	r := &recorder{e: e, skip: notReached, ver: notReached}
+	notation.Verify(context.Background(), r, hubRepo{}, notation.VerifyOptions{ArtifactReference: ref, MaxSignatureAttempts: 3})
+	return RObs{RegSkip: r.skip, RegVerify: r.ver}
 }
 
 // ---- generators -------------------------------------------------------------------------------
 
 // near-miss scope alphabet: nested, sibling, shorter / longer by one character, port-qualified,
 // same path under a differently-cased domain, another registry
+// docAlphabet is the alphabet genOCIDoc currently draws scopes from (scopeAlphabet or hubAlphabet)
+var docAlphabet []string
+
 var scopeAlphabet = []string{
 	"registry.example/app",
 	"registry.example/app/sub",
@@ -963,7 +1059,7 @@ func genOCIDoc(c *common.Ctx, k int, wild bool) []Stmt {
 			stmts[w].Scopes = []string{"*"}
 		}
 		if !(wild && k == 1) {
-			for _, sc := range shuffled(c, scopeAlphabet) {
+			for _, sc := range shuffled(c, docAlphabet) {
 				if c.Rand.Intn(3) == 0 {
 					continue // not listed anywhere
 				}
@@ -1164,15 +1260,96 @@ func flush(c *common.Ctx) {
 	pending = pending[:0]
 }
 
+// companions draws, for a document of the given kind, a valid and a non-unique document of the OTHER kind
+func companions(c *common.Ctx, kind string) (valid, bad []Stmt, badLabel string) {
+	if kind == "oci" {
+		valid = genBlobDoc(c, 1+c.Rand.Intn(3), c.Rand.Intn(2) == 0)
+		badLabel = blobDefects[c.Rand.Intn(len(blobDefects))]
+		bad = genBrokenBlobDoc(c, 2+c.Rand.Intn(2), badLabel)
+		return
+	}
+	valid = genOCIDoc(c, 1+c.Rand.Intn(3), c.Rand.Intn(2) == 0)
+	badLabel = ociDefects[c.Rand.Intn(len(ociDefects))]
+	k := 2 + c.Rand.Intn(2)
+	if badLabel == "three-wildcard-statements" {
+		k = 3
+	}
+	bad = genBrokenOCIDoc(c, k, badLabel)
+	return
+}
+
+// Docker Hub style and other registry hosts for the registry entry point
+var hubAlphabet = []string{
+	"docker.io/library/app",
+	"docker.io/acme/app",
+	"index.docker.io/library/app",
+	"registry-1.docker.io/library/app",
+	"ghcr.io/acme/app",
+	"registry.example/app",
+	"REGISTRY.example/app",
+	"localhost:5000/a/b",
+}
+
+// registryRefs: digest references (to the artifact the fake repository holds) for the listed scopes and
+// the hub alphabet, restricted to what the registry client's own parser accepts
+func registryRefs(stmts []Stmt) []string {
+	seen := map[string]bool{}
+	out := []string{}
+	add := func(sc string) {
+		if sc == "*" || seen[sc] {
+			return
+		}
+		seen[sc] = true
+		ref := sc + "@" + getWorld().target.Digest.String()
+		if _, err := orasRegistry.ParseReference(ref); err == nil {
+			out = append(out, ref)
+		}
+	}
+	for _, s := range stmts {
+		for _, sc := range s.Scopes {
+			add(sc)
+		}
+	}
+	for _, sc := range hubAlphabet {
+		add(sc)
+	}
+	return out
+}
+
 func emitAllPerms(c *common.Ctx, kind, label string, stmts []Stmt, queries []string, realEvery int) {
+	validComp, badComp, badLabel := companions(c, kind)
+	regq := []string{}
+	if kind == "oci" {
+		regq = registryRefs(stmts)
+	}
 	for pi, p := range perms(len(stmts)) {
-		in := Input{Kind: kind, Stmts: make([]Stmt, len(stmts)), Queries: queries,
+		in := Input{Kind: kind, Stmts: make([]Stmt, len(stmts)), Queries: queries, RegistryQueries: []string{},
 			History: []string{"validated", "unvalidated", "validated,in-code", "unvalidated,in-code"}[(pi+len(pending))%4]}
 		for i, j := range p {
 			in.Stmts[i] = stmts[j]
 		}
+		lab := label
+		// the verifier is configured with this document alone, with a valid document of the other kind as
+		// well, or with one that breaks a uniqueness rule (then there must be no verifier)
+		switch (pi + len(stmts)) % 3 {
+		case 1:
+			in.Companion = &validComp
+			lab += "+companion"
+		case 2:
+			if label == "unique" {
+				in.Companion = &badComp
+				lab += "+companion:" + badLabel
+			} else {
+				in.Companion = &validComp
+				lab += "+companion"
+			}
+		}
+		// the registry entry point on the first two permutations
+		if pi < 2 {
+			in.RegistryQueries = regq
+		}
 		// a genuine envelope on the first permutation for every query, otherwise on a rotating sample
-		pending = append(pending, job{in: in, pi: pi, realEvery: realEvery, label: label})
+		pending = append(pending, job{in: in, pi: pi, realEvery: realEvery, label: lab})
 	}
 	if len(pending) >= 1024 {
 		flush(c)
@@ -1555,11 +1732,14 @@ var editHistories = []string{
 func emitHistories(c *common.Ctx, kind, label string, before, after []Stmt, queries []string, realEvery int) {
 	b := cloneStmts(before)
 	for hi, h := range editHistories {
-		in := Input{Kind: kind, Stmts: after, Queries: queries, History: h, Before: &b}
+		in := Input{Kind: kind, Stmts: after, Queries: queries, History: h, Before: &b, RegistryQueries: []string{}}
+		if kind == "oci" && hi%3 == 0 {
+			in.RegistryQueries = registryRefs(after)
+		}
 		pending = append(pending, job{in: in, pi: hi + 1, realEvery: realEvery, label: "edited:" + label})
 	}
 	// a struct copy of a validated document whose content was not changed
-	in := Input{Kind: kind, Stmts: after, Queries: queries, History: "validated,warm,copy"}
+	in := Input{Kind: kind, Stmts: after, Queries: queries, History: "validated,warm,copy", RegistryQueries: []string{}}
 	pending = append(pending, job{in: in, pi: 1, realEvery: realEvery, label: "copied"})
 	if len(pending) >= 1024 {
 		flush(c)
@@ -1569,9 +1749,12 @@ func emitHistories(c *common.Ctx, kind, label string, before, after []Stmt, quer
 // Run: documents x all permutations x query battery.
 func Run(c *common.Ctx) error {
 	nOCI, nBlob, nBadOCI, nBadBlob, nEditOCI, nEditBlob, realEvery := 400, 80, 120, 30, 180, 56, 7
+	nHub := 60
 	getWorld() // before the workers start
+	docAlphabet = scopeAlphabet
 	pending = nil
 	if c.Thorough() {
+		nHub = 500
 		nOCI, nBlob, nBadOCI, nBadBlob, nEditOCI, nEditBlob, realEvery = 3200, 800, 1200, 240, 1350, 350, 5
 	}
 	// fixed documents that pin the near-miss shapes whatever the seed
@@ -1650,6 +1833,14 @@ func Run(c *common.Ctx) error {
 			break
 		}
 	}
+	// documents over Docker Hub style and other registry hosts: the registry entry point must apply, to the
+	// skip check and to every signature, the statement scoped to the repository AS WRITTEN in the reference
+	docAlphabet = hubAlphabet
+	for n := 0; n < nHub; n++ {
+		stmts := genOCIDoc(c, 1+n%4, n%3 != 0)
+		emitAllPerms(c, "oci", "unique", stmts, ociQueries(c, stmts), realEvery)
+	}
+	docAlphabet = scopeAlphabet
 	for n := 0; n < nOCI; n++ {
 		k := 1 + n%4
 		stmts := genOCIDoc(c, k, c.Rand.Intn(2) == 0)
